@@ -86,7 +86,7 @@ pub fn run(o: &Opts) -> i32 {
                 for b in c["list"].as_array().cloned().unwrap_or_default() {
                     ml.push_mod(Modify::Present(Attribute::BadlistPassword, Value::new_iutf8(b.as_str().unwrap_or(""))));
                 }
-                if w.modify(UUID_SYSTEM_CONFIG, ml, tick(&mut now)).await.is_err() {
+                if !c["list"].as_array().map(|a| a.is_empty()).unwrap_or(true) && w.modify(UUID_SYSTEM_CONFIG, ml, tick(&mut now)).await.is_err() {
                     eprintln!("TOOL-ERROR cannot set badlist");
                     return false;
                 }
